@@ -126,6 +126,17 @@ func genInferFiles(r *simrt.Rand, ties bool) (files map[string]string, args []st
 	if placeholder != "Expenses:TBD" {
 		args = append(args, "-a", placeholder)
 	}
+	if r.P(0.3) {
+		// closes of accounts that are booked on elsewhere in the training data (often in
+		// another file): infer learns from bookings, whatever happens to the accounts
+		txt := tr.String()
+		for _, a := range inferAccs[:r.Range(1, 4)] {
+			txt = "2019-12-31 close " + a + "\n" + txt
+		}
+		tr.Reset()
+		tr.WriteString(txt)
+		files["/w/train.knut"] = txt
+	}
 	if r.P(0.25) {
 		// training data spread over an include tree
 		files["/w/train.knut"] = "include \"t2.knut\"\ninclude \"sub/t3.knut\"\n"
